@@ -72,6 +72,7 @@ instance : Num Float where
   erfc := erfcSun
   eqb := fun a b => a == b
   inf := floatInf
+  ltInf := fun x => decide (x < floatInf)
   logGamma := fun x => if x ≤ 0.0 then 0.0 / 0.0 else Special.logGamma Float.log x
   incGammaP := fun a x => match Special.incGamma Float.exp Float.log Float.abs (fun a b => a == b) a x with
     | some pq => pq.1 | none => 0.0 / 0.0
